@@ -171,42 +171,43 @@ def run_task(task):
         res['sample'] = {'task': describe_task(task)}
         return res
 
-    def body():
-        e = S.engine()
-        try:
-            tl = None
-            if task['limit']:
-                tl = e.fresh_real('limit')
-                e.assume(tl > 0)
-            run = e2.run_e2(I, flags, seq, hook_factory=hook_for(task['status']), time_limit=tl, clock=True)
-            e.notes['run'] = run
-            K = len(run.snaps)
-            e.notes['x_terms'] = {(pr.studentID, pr.projectID): (S.term_of(pr.lp_var.varValue) if pr.lp_var.varValue is not None else z3.IntVal(0))
-                                  for row in run.solver.model.pairs for pr in row}
-            log = []
-            e.notes['log'] = log
-            state = canon(run.solver)
-            for g in task['order']:
-                try:
-                    txt = getattr(run.solver, g)()
-                except Exception as ex:  # noqa
-                    log.append((g, 'raised', '%s: %s' % (type(ex).__name__, ex), lpchecks.repo_site(ex)))
-                    continue
-                after = canon(run.solver)
-                log.append((g, 'ok', txt, after == state))
-                state = after
-            # second solve
-            first = [canon_snap(s_, 0) for s_ in run.snaps[:K]]
-            run.solver.solve(msg=False, timeLimit=tl)
-            second = [canon_snap(s_, K) for s_ in run.snaps[K:]]
-            e.notes['resolve'] = (first, second)
-            e.notes['status2'] = run.solver.model.pulp_status
-            return True
-        finally:
-            pass
+    def make_body(conc):
+      def body():
+          e = S.engine()
+          try:
+              tl = None
+              if task['limit']:
+                  tl = e.fresh_real('limit')
+                  e.assume(tl > 0)
+              run = e2.run_e2(I, flags, seq, hook_factory=hook_for(task['status']), time_limit=tl, clock=True, numerics=conc)
+              e.notes['run'] = run
+              K = len(run.snaps)
+              e.notes['x_terms'] = {(pr.studentID, pr.projectID): (S.term_of(pr.lp_var.varValue) if pr.lp_var.varValue is not None else z3.IntVal(0))
+                                    for row in run.solver.model.pairs for pr in row}
+              log = []
+              e.notes['log'] = log
+              state = canon(run.solver)
+              for g in task['order']:
+                  try:
+                      txt = getattr(run.solver, g)()
+                  except Exception as ex:  # noqa
+                      log.append((g, 'raised', '%s: %s' % (type(ex).__name__, ex), lpchecks.repo_site(ex)))
+                      continue
+                  after = canon(run.solver)
+                  log.append((g, 'ok', txt, after == state))
+                  state = after
+              # second solve
+              first = [canon_snap(s_, 0) for s_ in run.snaps[:K]]
+              run.solver.solve(msg=False, timeLimit=tl)
+              second = [canon_snap(s_, K) for s_ in run.snaps[K:]]
+              e.notes['resolve'] = (first, second)
+              e.notes['status2'] = run.solver.model.pulp_status
+              return True
+          finally:
+              pass
+      return body
 
-    E = S.Engine(max_paths=30000, timeout=1500)
-    paths = E.explore(body)
+    E, paths = e2.explore_or_degrade(lambda: S.Engine(max_paths=30000, timeout=300), make_body, I, res['controls'])
     res['paths'] = len(paths)
     res['queries'] += E.stats['solver_queries']
     res['solver_time'] += E.stats['solver_time']
